@@ -89,7 +89,8 @@ def storeResponse (cfg : Cfg) (reqH : Header) (r : Resp) (bodyOk : Bool) (key : 
   let r' := respWith r (removeHopByHop r.header)
   let vary0 := joinWith [',', ' '] (Header.values r'.header sVary)
   -- a Vary value with a "*" member is recorded as "*": one variant, however it is spelled
-  let vary := if varyHasWildcard vary0 then ['*'] else vary0
+  -- (each field line is looked at on its own: a stray quote on one line must not hide a "*" on the next)
+  let vary := if (Header.values r'.header sVary).any varyHasWildcard then ['*'] else vary0
   let resolved := normalizeVary cfg.normQ vary reqH
   let id := makeVaryKey key resolved
   let entry : Entry := { id := id, requestedAt := reqT, receivedAt := respT, resp := r' }
